@@ -38,10 +38,22 @@ func prod2(t testing.TB) *world.World {
 // transcript executes a history on one instance and returns one line per step plus the final
 // exported orbiter and bank state.
 func transcript(w *world.World, h kit.History) ([]string, kit.History) {
+	return transcriptQ(w, h, false)
+}
+
+// transcriptQ: with queries set, every query RPC of the module is served (read-only, results
+// ignored) before the first and after every step.
+func transcriptQ(w *world.World, h kit.History, queries bool) ([]string, kit.History) {
 	m := kit.NewMachine(w)
 	var lines []string
+	if queries {
+		serveAllQueries(w, m.Ctx)
+	}
 	for i, s := range h {
 		o := m.Do(s)
+		if queries {
+			serveAllQueries(w, m.Ctx)
+		}
 		var line string
 		switch {
 		case o.BuildErr != nil:
@@ -377,7 +389,9 @@ func TestC19CrossProcess(t *testing.T) {
 	rapid.Check(t, func(rt *rapid.T) {
 		c := caseHistory{History: genC19History(rt, opt)}
 		rec.Eval()
-		lines, _ := transcript(w, c.History)
+		// the second process serves every query of the module between the steps: read-only
+		// requests must not change what the transactions produce
+		lines, _ := transcriptQ(w, c.History, os.Getenv("VERIF_REPLICA") == "1")
 		h := sha256.New()
 		for _, l := range lines {
 			h.Write([]byte(l))
